@@ -56,6 +56,17 @@ def make_cases(rng, nbase):
         bases.append((g, t, v0, pg, pat, False))
         for w in far_values(v0, t):
             bases.append((g, t, w, pg, pat, True))
+    # a single pattern in grouping parentheses
+    for (t, form, shape) in [(("int", "i32"), "gt", None), (("int", "i32"), "simple", None), (("int", "i32"), "range", "closed"), (("string",), "string", None), (("string",), "eq", None)]:
+        g = tgen.Gen(rng)
+        v0 = g.gen_val(t)
+        pg = tgen.PatGen(g, rng, root_is_ref=True)
+        pg.spellings = False
+        pg.force, pg.force_shape = form, shape
+        pat = "(%s)" % pg.pat(v0, t, depth=1)
+        bases.append((g, t, v0, pg, pat, False))
+        for w in far_values(v0, t)[:2]:
+            bases.append((g, t, w, pg, pat, True))
     n_atoms = len(bases)
     for kind in COMPOUND:
         for _ in range(2):
